@@ -1934,6 +1934,8 @@ DEFAULT_MODELS = {
     "alloc::vec::Vec::<T, A>::as_slice": _ident,
     "alloc::slice::<impl [T]>::to_vec": _ident,
     "alloc::boxed::Box::<T>::new": _m_box_new,
+    # UTF-8 validation of a byte string: one function whether the result is borrowed or owned
+    "alloc::string::String::from_utf8": (lambda ev, a, t, d: ("call", "core::str::converts::from_utf8", tuple(a))),
     "alloc::boxed::box_assume_init_into_vec_unsafe": _m_vec_macro,
     "alloc::slice::<impl [T]>::into_vec": _m_vec_macro,
     "core::str::traits::<impl core::cmp::PartialEq for str>::eq": _m_eq,
